@@ -160,3 +160,37 @@ impl Property for P {
         }
     }
 }
+
+pub fn decode(data: &[u8]) -> Case {
+    let mut r = crate::fuzzdec::Reader::new(data);
+    fn f(b: u8) -> f64 {
+        match b {
+            0..=179 => (b % 60) as f64 / 4.0,
+            180..=199 => -((b - 180) as f64) / 2.0,
+            200 => -0.0,
+            201 => 1e100,
+            202 => 1e154,
+            203 => 1e200,
+            204 => f64::MAX,
+            205 => f64::MIN_POSITIVE,
+            206 => 9007199254740992.0,
+            207 => 18446744073709551616.0,
+            208 => f64::MIN,
+            _ => (b as f64) * 1000.0,
+        }
+    }
+    let pen = PenSpec {
+        nline: r.u16() as usize,
+        overflow: r.u16() as usize,
+        fraction: r.u8() as usize,
+        short_last: r.u8() as usize,
+        hyphen: r.u8() as usize,
+    };
+    let nw = r.pick(5);
+    let widths: Vec<f64> = (0..nw).map(|_| f(r.u8())).collect();
+    let mut frags = Vec::new();
+    while r.remaining() >= 3 && frags.len() < 40 {
+        frags.push(Frag { w: f(r.u8()), ws: f(r.u8()), p: f(r.u8()) });
+    }
+    Case { frags, widths, pen }
+}
